@@ -160,6 +160,8 @@ def write_ev(pid, mod, tier, seed, results, meta, fid, t0, violations=0, known=(
     if n_obl == 0 or n_dis != n_obl:
         # never claim proof when something is open
         level = 'other' if level == 'proof' else level
+    if level not in ('exploration', 'fault_enumeration', 'model_checking', 'proof', 'translation_validation', 'other'):
+        level = 'other'          # EVIDENCE.schema.json enumerates the levels; bounded stand-ins are 'other'
     ev = {
         'property_id': pid, 'tier': tier, 'seed': int(seed), 'level': level,
         'coverage': cov,
